@@ -194,7 +194,7 @@ func (c *CEnv) eval(e *CExpr) Val {
 		if v, ok := c.lookupIdent(e.Name); ok {
 			return v
 		}
-		c.fail("unknown identifier %s", e.Name)
+		c.fail("unknown identifier %s (package %s)", e.Name, c.pkg.Types.Name())
 	case "old":
 		if c.old == nil {
 			c.fail("old() without an old state")
